@@ -34,7 +34,7 @@ def repo_digest(repo):
     for root, _, files in sorted(os.walk(os.path.join(repo, "src"))):
         for f in sorted(files):
             p = os.path.join(root, f)
-            h.update(p.encode())
+            h.update(os.path.relpath(p, repo).encode())
             h.update(open(p, "rb").read())
     for f in ("Cargo.toml", "Cargo.lock"):
         h.update(open(os.path.join(repo, f), "rb").read())
@@ -122,6 +122,16 @@ def main():
     ap.add_argument("--where", action="store_true", help="only print the cached facts directory of each selected variant (for sa/dump.py)")
     a = ap.parse_args()
     props = a.prop.split(",") if a.prop else ALL
+    # work from one snapshot of the repository taken now: the digest and every variant derive from the same bytes even
+    # if /repo's working tree changes while this runs
+    snap = tempfile.mkdtemp(prefix="regress-base-")
+    import atexit
+    atexit.register(lambda: shutil.rmtree(snap, ignore_errors=True))
+    for f in ("Cargo.toml", "Cargo.lock", "rust-toolchain", "build.rs"):
+        if os.path.exists(os.path.join(a.repo, f)):
+            shutil.copy(os.path.join(a.repo, f), snap)
+    shutil.copytree(os.path.join(a.repo, "src"), os.path.join(snap, "src"), symlinks=True)
+    a.repo = snap
     digest = repo_digest(a.repo)
     ents = corpus(a.kind.split(","), a.only)
     # stage 1: facts (extract.sh serialises on the shared target dir; a small pool keeps the pipe full)
